@@ -154,11 +154,11 @@ fn wake(res: ResId, waker: Option<Waker>) {
 pub struct Sock {
     pub conn: ConnRef,
     pub side: Side,
-    read_timeout: StdMutex<Option<Duration>>,
-    write_timeout: StdMutex<Option<Duration>>,
-    shut_rd: AtomicBool,
-    shut_wr: AtomicBool,
-    nonblocking: AtomicBool,
+    pub(crate) read_timeout: StdMutex<Option<Duration>>,
+    pub(crate) write_timeout: StdMutex<Option<Duration>>,
+    pub(crate) shut_rd: AtomicBool,
+    pub(crate) shut_wr: AtomicBool,
+    pub(crate) nonblocking: AtomicBool,
 }
 
 impl Drop for Sock {
@@ -329,6 +329,18 @@ pub fn shutdown_all() {
     }
 }
 
+pub(crate) fn new_sock(conn: ConnRef, side: Side) -> Sock {
+    Sock {
+        conn,
+        side,
+        read_timeout: StdMutex::new(None),
+        write_timeout: StdMutex::new(None),
+        shut_rd: AtomicBool::new(false),
+        shut_wr: AtomicBool::new(false),
+        nonblocking: AtomicBool::new(false),
+    }
+}
+
 fn resolve_one<A: ToSocketAddrs>(addr: A) -> io::Result<SocketAddr> {
     addr.to_socket_addrs()?
         .next()
@@ -463,6 +475,31 @@ pub(crate) fn read_step(conn: &ConnRef, side: Side, buf: &mut [u8], shut_rd: boo
         let (res_w, ww) = (p.res_w, p.write_waker.take());
         drop(c);
         wake(res_w, ww);
+        return Step::Done(Ok(n));
+    }
+    if p.reset {
+        return Step::Done(Err(io::Error::new(ErrorKind::ConnectionReset, "connection reset by peer")));
+    }
+    if p.eof_visible(now) {
+        return Step::Done(Ok(0));
+    }
+    if let Some(w) = waker {
+        p.read_waker = Some(w.clone());
+    }
+    Step::Wait { res: p.res_r, wake_at: p.next_event(now) }
+}
+
+/// Like `read_step` but leaves the bytes in the pipe (`TcpStream::peek`).
+pub(crate) fn peek_step(conn: &ConnRef, side: Side, buf: &mut [u8], waker: Option<&Waker>) -> Step {
+    let now = kernel::now_ns();
+    let mut c = lockc(conn);
+    let p = c.in_pipe(side);
+    p.promote(now);
+    if !p.readable.is_empty() {
+        let n = buf.len().min(p.readable.len());
+        for (i, b) in p.readable.iter().take(n).enumerate() {
+            buf[i] = *b;
+        }
         return Step::Done(Ok(n));
     }
     if p.reset {
